@@ -1241,3 +1241,118 @@ Proof.
   pose proof (send_timeout_spec N hdr data (session N p0 negs evs)) as S. cbv zeta in S.
   rewrite Hq in S. apply S.
 Qed.
+
+(* ------------------------------------------------------------------ the shared dongle *)
+
+Lemma zeqb_eq' a b : (a =? b) = true -> a = b.
+Proof. apply Z.eqb_eq. Qed.
+
+Ltac coh_solve H1 H2 H3 :=
+  repeat split; cbn [d_hw d_cch d_cdr d_caddr s_ch s_dr s_addr]; try reflexivity;
+  try (now apply H1); try (now apply H2); try (now apply H3);
+  try (intros y Hy; first [apply H1; congruence | apply H2; congruence | apply H3; congruence
+                          | injection Hy as <-; reflexivity]).
+
+Lemma cr_set_channel_spec c d : coherent d ->
+  coherent (cr_set_channel c d) /\ s_ch (d_hw (cr_set_channel c d)) = c
+  /\ s_dr (d_hw (cr_set_channel c d)) = s_dr (d_hw d) /\ s_addr (d_hw (cr_set_channel c d)) = s_addr (d_hw d).
+Proof.
+  destruct d as [[hc hr ha] cc cr ca]. unfold coherent, cr_set_channel, oz_eqb.
+  cbn [d_hw d_cch d_cdr d_caddr s_ch s_dr s_addr]. intros (H1 & H2 & H3).
+  destruct cc as [x|]; [destruct (x =? c) eqn:E1|].
+  - apply Z.eqb_eq in E1. subst x. coh_solve H1 H2 H3.
+  - coh_solve H1 H2 H3.
+  - coh_solve H1 H2 H3.
+Qed.
+
+Lemma cr_set_data_rate_spec r d : coherent d ->
+  coherent (cr_set_data_rate r d) /\ s_dr (d_hw (cr_set_data_rate r d)) = r
+  /\ s_ch (d_hw (cr_set_data_rate r d)) = s_ch (d_hw d) /\ s_addr (d_hw (cr_set_data_rate r d)) = s_addr (d_hw d).
+Proof.
+  destruct d as [[hc hr ha] cc cr ca]. unfold coherent, cr_set_data_rate, oz_eqb.
+  cbn [d_hw d_cch d_cdr d_caddr s_ch s_dr s_addr]. intros (H1 & H2 & H3).
+  destruct cr as [x|]; [destruct (x =? r) eqn:E1|].
+  - apply Z.eqb_eq in E1. subst x. coh_solve H1 H2 H3.
+  - coh_solve H1 H2 H3.
+  - coh_solve H1 H2 H3.
+Qed.
+
+Lemma cr_set_address_spec a d : coherent d ->
+  coherent (cr_set_address a d) /\ s_addr (d_hw (cr_set_address a d)) = a
+  /\ s_ch (d_hw (cr_set_address a d)) = s_ch (d_hw d) /\ s_dr (d_hw (cr_set_address a d)) = s_dr (d_hw d).
+Proof.
+  destruct d as [[hc hr ha] cc cr ca]. unfold coherent, cr_set_address, ol_eqb.
+  cbn [d_hw d_cch d_cdr d_caddr s_ch s_dr s_addr]. intros (H1 & H2 & H3).
+  destruct ca as [x|]; [destruct (zlist_eqb x a) eqn:E1|].
+  - apply zlist_eqb_spec in E1. subst x. coh_solve H1 H2 H3.
+  - coh_solve H1 H2 H3.
+  - coh_solve H1 H2 H3.
+Qed.
+
+Lemma scan_channels_loop_spec n : forall start pk d, coherent d ->
+  coherent (snd (scan_channels_loop start n pk d)) /\ sends_tuned (fst (scan_channels_loop start n pk d)).
+Proof.
+  induction n as [|n IH]; intros start pk d H; cbn [scan_channels_loop].
+  - split; [exact H|constructor].
+  - destruct (cr_set_channel_spec start d H) as (H1 & _).
+    specialize (IH (start + 1) pk _ H1).
+    destruct (scan_channels_loop (start + 1) n pk (cr_set_channel start d)) as [l d2]. cbn [fst snd] in *.
+    split; [apply IH|]. constructor; [exact I|apply IH].
+Qed.
+
+Lemma scan_selected_loop_spec sel : forall pk d, coherent d ->
+  coherent (snd (scan_selected_loop sel pk d)) /\ sends_tuned (fst (scan_selected_loop sel pk d)).
+Proof.
+  induction sel as [|[c r] t IH]; intros pk d H; cbn [scan_selected_loop].
+  - split; [exact H|constructor].
+  - destruct (cr_set_channel_spec c d H) as (H1 & _).
+    destruct (cr_set_data_rate_spec r _ H1) as (H2 & _).
+    specialize (IH pk _ H2).
+    destruct (scan_selected_loop t pk (cr_set_data_rate r (cr_set_channel c d))) as [l d2]. cbn [fst snd] in *.
+    split; [apply IH|]. constructor; [exact I|apply IH].
+Qed.
+
+Lemma dongle0_coherent : coherent dongle0.
+Proof. repeat split; intros x H; injection H as <-; reflexivity. Qed.
+
+Lemma rstep_spec c d : coherent d -> coherent (snd (rstep c d)) /\ sends_tuned (fst (rstep c d)).
+Proof.
+  intros H. destruct c as [i s pk|i dr addr start n pk|i dr addr sel pk|i arc|i|]; cbn [rstep fst snd].
+  - destruct (cr_set_channel_spec (s_ch s) d H) as (H1 & C1 & _).
+    destruct (cr_set_address_spec (s_addr s) _ H1) as (H2 & A2 & C2 & _).
+    destruct (cr_set_data_rate_spec (s_dr s) _ H2) as (H3 & R3 & C3 & A3).
+    split; [exact H3|]. constructor; [|constructor]. cbn [x_req x_hw].
+    destruct s as [c r a]. cbn [s_ch s_dr s_addr] in *.
+    destruct (d_hw (cr_set_data_rate r (cr_set_address a (cr_set_channel c d)))) as [c' r' a'].
+    cbn [s_ch s_dr s_addr] in *. congruence.
+  - destruct (cr_set_data_rate_spec dr d H) as (H1 & _). destruct (cr_set_address_spec addr _ H1) as (H2 & _).
+    apply scan_channels_loop_spec. exact H2.
+  - destruct (cr_set_data_rate_spec dr d H) as (H1 & _). destruct (cr_set_address_spec addr _ H1) as (H2 & _).
+    apply scan_selected_loop_spec. exact H2.
+  - split; [exact H|constructor].
+  - split; [exact H|constructor].
+  - split; [exact dongle0_coherent|constructor].
+Qed.
+
+Lemma rexec_spec cs : forall d, coherent d -> coherent (snd (rexec cs d)) /\ sends_tuned (fst (rexec cs d)).
+Proof.
+  induction cs as [|c t IH]; intros d H; cbn [rexec].
+  - split; [exact H|constructor].
+  - destruct (rstep_spec c d H) as (H1 & S1). destruct (rstep c d) as [l d1]. cbn [fst snd] in *.
+    specialize (IH d1 H1). destruct (rexec t d1) as [l2 d2]. cbn [fst snd] in *.
+    split; [apply IH|]. apply Forall_app. split; [exact S1|apply IH].
+Qed.
+
+Lemma shared_dongle_always_tuned cs d : coherent d -> sends_tuned (fst (rexec cs d)).
+Proof. intros H. now apply rexec_spec. Qed.
+
+Lemma cached_tuning_refuted :
+  exists cs, ~ sends_tuned (rexec_cached cs (dongle0, None)).
+Proof.
+  exists [CSend 0 (mkSet 80 2 [231; 231; 231; 231; 1]) [255];
+          CScanChannels 1 0 [231; 231; 231; 231; 231] 0 3%nat [255];
+          CSend 0 (mkSet 80 2 [231; 231; 231; 231; 1]) [60; 1]].
+  intros H. vm_compute in H.
+  inversion H as [|? ? _ H1]; subst. inversion H1 as [|? ? _ H2]; subst. inversion H2 as [|? ? _ H3]; subst.
+  inversion H3 as [|? ? _ H4]; subst. inversion H4 as [|? ? H5 _]; subst. discriminate H5.
+Qed.
